@@ -156,7 +156,14 @@ func mkSchedule0(rng *rand.Rand, reply []byte, kind string, E int) (xport.Script
 		if rng.Intn(4) == 0 {
 			steps = append([]xport.ReadStep{{Err: "deadline"}}, steps...)
 		}
-		return xport.Script{Reply: reply, Steps: steps, Tail: "deadline"}, fmt.Sprintf("frag%v", cuts)
+		sc := xport.Script{Reply: reply, Steps: steps, Tail: "deadline"}
+		if rng.Intn(6) == 0 {
+			// the caller cancels while the read that brings the last bytes is under way: with or without hooks the call has
+			// its complete reply when that read returns (or goes on to notice the cancellation) - the same either way
+			sc.CancelAtRead = len(steps)
+			return sc, fmt.Sprintf("frag%v/cancel-during-last-read", cuts)
+		}
+		return sc, fmt.Sprintf("frag%v", cuts)
 	}
 	p := rng.Intn(L)
 	var steps []xport.ReadStep
